@@ -272,6 +272,48 @@ func (S2NoB) A(x int) int { return x }
 
 var zSig2 Sig2 = S2OK{}
 
+// selector lookup: a method and a field reachable through embedded fields only; the same type as a
+// named field, behind a pointer, one and two levels deep
+type LeafA struct{ x int }
+
+func (a LeafA) Foo() int   { return a.x }
+func (a *LeafA) PFoo() int { return a.x }
+
+type EmbV struct{ LeafA }
+type EmbP struct{ *LeafA }
+type NamV struct{ a LeafA }
+type NamP struct{ a *LeafA }
+type EmbEmb struct{ EmbV }
+type EmbNam struct{ NamV }
+type NamEmb struct{ n EmbV }
+type NamNam struct{ n NamV }
+type DefNam NamV
+type DefEmb EmbV
+
+var zLeaf LeafA = LeafA{1}
+var zEmbV EmbV = EmbV{LeafA{1}}
+var zEmbP EmbP = EmbP{&zLeaf}
+var zNamV NamV = NamV{LeafA{1}}
+var zNamP NamP = NamP{&zLeaf}
+var zEmbEmb EmbEmb = EmbEmb{EmbV{LeafA{1}}}
+var zEmbNam EmbNam = EmbNam{NamV{LeafA{1}}}
+var zNamEmb NamEmb = NamEmb{EmbV{LeafA{1}}}
+var zNamNam NamNam = NamNam{NamV{LeafA{1}}}
+var zDefNam DefNam = DefNam{LeafA{1}}
+var zDefEmb DefEmb = DefEmb{LeafA{1}}
+
+// call shapes: variadic callees with fixed parameters (function, method, function value)
+type Acc struct{ n int }
+
+func (a *Acc) AddAll(base int, more ...int) int { return base + len(more) }
+func addAll(base int, more ...int) int          { return base + len(more) }
+func pick2(a, b int, more ...int) int            { return a + b + len(more) }
+func anyAll(first interface{}, rest ...interface{}) int { return len(rest) }
+
+var zAcc *Acc = &Acc{}
+var zAddFn func(int, ...int) int = addAll
+var zEfs []interface{} = []interface{}{1, "e"}
+
 func sink(v ...interface{}) {}
 
 // pool end
